@@ -311,7 +311,9 @@ def exact_arm_ops(fn, reg, rf=None):
         if kind.startswith("Overflow") or kind in ("DivisionByZero", "RemainderByZero", "OverflowNeg"):
             # `x % const` / `x / const` with a non-zero constant: the zero assert is vacuous
             if kind in ("DivisionByZero", "RemainderByZero"):
-                c = op_const(t["ops"][0]) if t["ops"] else None
+                oc = fn.origin(t["cond"])
+                dv = oc[1]["rv"]["a"] if oc[0] == "rv" and oc[1]["rv"]["k"] == "bin" else None
+                c = op_const(dv) if dv else None
                 if c is not None and c.get("int", 0) != 0:
                     continue
             ty = None
